@@ -44,6 +44,7 @@ def load_check(cid):
 
 def _worker_init():
     signal.signal(signal.SIGALRM, _alarm)
+    signal.signal(signal.SIGTERM, signal.SIG_DFL)
 
 
 def _run_one(args):
@@ -86,6 +87,10 @@ def run(cid, tier="quick", seed=0, jobs=None, only=None):
     old_tmp = os.environ.get("TMPDIR")
     os.environ["TMPDIR"] = scratch
     tempfile.tempdir = None
+
+    def _term(signum, frame):  # `timeout` / a supervisor stopping the run: leave through the finally below so the scratch directory goes
+        raise SystemExit(143)
+    old_term = signal.signal(signal.SIGTERM, _term)
     try:
         return _run(cid, tier, seed, jobs, only)
     finally:
@@ -94,6 +99,7 @@ def run(cid, tier="quick", seed=0, jobs=None, only=None):
         else:
             os.environ["TMPDIR"] = old_tmp
         tempfile.tempdir = None
+        signal.signal(signal.SIGTERM, old_term)
         shutil.rmtree(scratch, ignore_errors=True)
 
 
